@@ -5,7 +5,7 @@
    requests, nesting depth and undefined bool loads.  [fits bs] : the buffer is shorter than 2^31 bytes (the uint32
    API cannot describe 2^32-1 or more, and SeekRelative() takes its uint32 argument as an int32). *)
 From Coq Require Import List NArith Strings.Byte.
-From Muscle Require Import Gen.Consts Msg.MsgDefs Msg.MsgInstr Msg.MsgInstrProofs.
+From Muscle Require Import Gen.Consts Msg.MsgDefs Msg.MsgInstr Msg.MsgInstrProofs Msg.MsgInstrRefuted Gw.RecvInstr Gw.GwRecvProofs.
 Import ListNotations.
 Local Open Scope N_scope.
 
@@ -43,6 +43,52 @@ Proof. reflexivity. Qed.
 Theorem C02_parse_consumed : forall bs, fits bs -> consumed (unflatten_i bs fixed) <= len bs.
 Proof. exact parse_consumed_proof. Qed.
 Print Assumptions C02_parse_consumed.
+
+(* ---- MessageIOGateway receive machine (stream mode), repaired code: for every configured maximum, every Message parser
+   (zlib included), every byte stream under every segmentation the run terminates, every Read() target range and the
+   header memcpy lie inside the buffer written to, and no buffer request exceeds max(scratch, hs + min(maxIncoming, 2^32-1-hs));
+   hs+bodySize is uint32 arithmetic in the model as in the C++ *)
+Theorem C02_recv_sound : forall max_in unflat (segs : list bytes),
+  exists s lg, feed true max_in unflat g_init glog0 segs = Some (s, lg) /\
+    Forall write_ok (gl_writes lg) /\
+    Forall (fun n => n <= N.max g_scratch (g_hs + N.min max_in (g_nolim - g_hs))) (gl_allocs lg).
+Proof. exact recv_sound_proof. Qed.
+Print Assumptions C02_recv_sound.
+
+(* ---- the pinned code violates the property: one witness per finding (each was replayed on the real code) *)
+Theorem C02_recv_refuted_F3 :
+  exists s lg i mb, recv_turn false g_nolim (fun _ => false) g_init glog0 f3_header g_nolim = TGo s lg i mb /\
+                    In (0, 0, g_hs) (gl_writes lg) /\ ~ write_ok (0, 0, g_hs).
+Proof. exact recv_f3_refuted_proof. Qed.
+Print Assumptions C02_recv_refuted_F3.
+Theorem C02_recv_spins_F3 : feed false g_nolim (fun _ => false) g_init glog0 [f3_header] = None.
+Proof. exact recv_f3_spins_proof. Qed.
+Print Assumptions C02_recv_spins_F3.
+Theorem C02_parse_alloc_linear_refuted_F1 :
+  fits f1_witness /\ len f1_witness = 35 /\
+  KA * len f1_witness < allocated (unflatten_i f1_witness (only_without false true true true true)).
+Proof. exact parse_alloc_linear_refuted_F1. Qed.
+Print Assumptions C02_parse_alloc_linear_refuted_F1.
+Theorem C02_parse_alloc_linear_refuted_F42 :
+  fits (nest_bomb 100) /\
+  KA * len (nest_bomb 100) < allocated (unflatten_i (nest_bomb 100) (only_without true true false true true)).
+Proof. exact parse_alloc_linear_refuted_F42. Qed.
+Print Assumptions C02_parse_alloc_linear_refuted_F42.
+Theorem C02_parse_no_ub_refuted_F43 :
+  fits f43_witness /\ 0 < ub_events (unflatten_i f43_witness (only_without true true true false true)).
+Proof. exact parse_no_ub_refuted_F43. Qed.
+Print Assumptions C02_parse_no_ub_refuted_F43.
+Theorem C02_parse_no_abort_refuted_F44 :
+  fits f44_witness /\ len f44_witness = 26 /\
+  result_of (unflatten_i f44_witness (only_without true true true true false)) = Crash.
+Proof. exact parse_no_abort_refuted_F44. Qed.
+Print Assumptions C02_parse_no_abort_refuted_F44.
+Theorem C02_tmpl_parse_in_bounds_refuted_F2 :
+  fits f2_witness /\ len f2_witness = 16 /\
+  all_in_bounds (len f2_witness) (accesses (tunflatten_i f2_witness (only_without true false true true true) f2_template)) = false /\
+  In (16, 4) (accesses (tunflatten_i f2_witness (only_without true false true true true) f2_template)).
+Proof. exact tmpl_parse_in_bounds_refuted_F2. Qed.
+Print Assumptions C02_tmpl_parse_in_bounds_refuted_F2.
 
 (* non-vacuity: the premise holds for real encodings, and the model parses them: an empty Message with what-code 7,
    and a Message holding one int32 field "i" = 5 *)
